@@ -456,6 +456,20 @@ func checkRelaxedTime(r *Report, p *Prog) {
 				}
 				break
 			}
+			// the instant may come back in a field of a helper's result struct ({instant, err}): what the helper's one
+			// successful return puts into that field
+			var viaResult *resultFieldInfo
+			if ri := structResultFieldInfo(p, v); ri != nil {
+				viaResult = ri
+				v = ri.val
+				for {
+					if ct, ok := v.(*ssa.ChangeType); ok {
+						v = ct.X
+						continue
+					}
+					break
+				}
+			}
 			cons := fmt.Sprintf("%s: value stored at %s", p.FnName(um), p.InstrPos(in))
 			if _, isConst := v.(*ssa.Const); isConst || isZeroTime(v) {
 				// the empty text -> zero instant arm
@@ -532,7 +546,14 @@ func checkRelaxedTime(r *Report, p *Prog) {
 			if okA {
 				// under err == nil of that very Parse call
 				base := timeChainBase(v)
-				if ex, ok := base.(*ssa.Extract); ok {
+				if ex, ok := base.(*ssa.Extract); ok && viaResult != nil {
+					// the helper: the return that sets the instant is reached only under Parse's err == nil, and every
+					// other return reports a non-nil error in the struct; the caller: stores under that error field == nil
+					if why2 := resultArmOK(p, fu, b, viaResult, ex); why2 != "" {
+						okA = false
+						why = why2
+					}
+				} else if ok {
 					nm := "isnil(" + fu.AP(ex.Tuple) + "#1)"
 					if !(B.HasVar(nm) && fu.Implied(b, B.Var(nm))) {
 						okA = false
@@ -567,6 +588,12 @@ func checkRelaxedTime(r *Report, p *Prog) {
 	for _, c := range parseCalls {
 		if l, ok := constStr(c.Call.Args[0]); ok {
 			layouts = append(layouts, l)
+			continue
+		}
+		// the layout is a parameter (or the receiver, of a named string type) of an unexported helper: the constants its
+		// call sites pass
+		if ls, ok := paramConstStrings(p, c.Call.Args[0]); ok {
+			layouts = append(layouts, ls...)
 			continue
 		}
 		ls, ok := tableStrings(p, c.Call.Args[0])
@@ -1887,4 +1914,189 @@ func emptyByteSlice(v ssa.Value) bool {
 		}
 	}
 	return false
+}
+
+// structResultField: v reads a field of the struct a module function returned (directly, or through the local the result
+// was assigned to); when exactly one return of that function gives the field a value other than its zero value, that
+// value (in the callee). nil otherwise.
+type resultFieldInfo struct {
+	val  ssa.Value   // the value the successful return gives the field (in the callee)
+	call *ssa.Call   // the call whose struct result is read
+	al   *ssa.Alloc  // the caller's local holding the result (nil when read directly)
+	ret  *ssa.Return // the callee's return that sets the field
+}
+
+func structResultField(p *Prog, v ssa.Value) ssa.Value {
+	if i := structResultFieldInfo(p, v); i != nil {
+		return i.val
+	}
+	return nil
+}
+
+func structResultFieldInfo(p *Prog, v ssa.Value) *resultFieldInfo {
+	var call *ssa.Call
+	var holder *ssa.Alloc
+	fld := -1
+	switch x := v.(type) {
+	case *ssa.Field:
+		call, _ = x.X.(*ssa.Call)
+		fld = x.Field
+	case *ssa.UnOp:
+		if fa, ok := x.X.(*ssa.FieldAddr); ok && x.Op == token.MUL {
+			if al, ok := fa.X.(*ssa.Alloc); ok {
+				if sv := wholeStore(al); sv != nil {
+					call, _ = sv.(*ssa.Call)
+					fld = fa.Field
+					holder = al
+				}
+			}
+		}
+	}
+	if call == nil || fld < 0 {
+		return nil
+	}
+	sc := call.Call.StaticCallee()
+	if sc == nil || len(sc.Blocks) == 0 || !p.InLibrary(sc) || sc.Signature.Results().Len() != 1 {
+		return nil
+	}
+	var found ssa.Value
+	var foundRet *ssa.Return
+	for _, ret := range returnsOf(sc) {
+		alts := retAlts(ret, -fld-1)
+		if len(alts) == 0 {
+			// a field of struct type the returned literal does not mention: its zero value
+			if len(ret.Results) == 1 {
+				if ld, ok := ret.Results[0].(*ssa.UnOp); ok && ld.Op == token.MUL {
+					if al, ok := ld.X.(*ssa.Alloc); ok && onlyFieldAccess(al) && literalFieldValue(al, []int{fld}, 0) == nil {
+						continue
+					}
+				}
+			}
+			return nil
+		}
+		for _, a := range alts {
+			if c, ok := a.v.(*ssa.Const); ok && (c.Value == nil || c.IsNil()) {
+				continue
+			}
+			if isZeroTime(a.v) {
+				continue
+			}
+			if found != nil && found != a.v {
+				return nil
+			}
+			found, foundRet = a.v, ret
+		}
+	}
+	if found == nil {
+		return nil
+	}
+	return &resultFieldInfo{found, call, holder, foundRet}
+}
+
+// paramConstStrings: v is (a string conversion of) a parameter of an unexported module function all of whose static call
+// sites pass a string constant for it: those constants.
+func paramConstStrings(p *Prog, v ssa.Value) ([]string, bool) {
+	for i := 0; i < 3; i++ {
+		switch x := v.(type) {
+		case *ssa.Convert:
+			v = x.X
+			continue
+		case *ssa.ChangeType:
+			v = x.X
+			continue
+		}
+		break
+	}
+	prm, ok := v.(*ssa.Parameter)
+	if !ok {
+		return nil, false
+	}
+	fn := prm.Parent()
+	if fn.Object() == nil || fn.Object().Exported() {
+		return nil, false
+	}
+	idx := -1
+	for i, q := range fn.Params {
+		if q == prm {
+			idx = i
+		}
+	}
+	sites := p.StaticCallersOf(fn)
+	if idx < 0 || len(sites) == 0 {
+		return nil, false
+	}
+	var out []string
+	for _, cs := range sites {
+		arg := cs.Arg(idx)
+		if arg == nil {
+			return nil, false
+		}
+		s, ok := constStr(arg)
+		if !ok {
+			return nil, false
+		}
+		out = append(out, s)
+	}
+	return out, true
+}
+
+// resultArmOK: the caller stores, in block b, the instant field of the result struct described by ri, whose value comes
+// from the time.Parse call of ex inside the helper. "" when (a) in the helper the return that sets the field is reached
+// only under that call's err == nil, (b) every other return of the helper puts a non-nil error into the struct's error
+// field, and (c) the caller's block is reached only under that error field == nil.
+func resultArmOK(p *Prog, fu *FuncCtx, b *ssa.BasicBlock, ri *resultFieldInfo, ex *ssa.Extract) string {
+	helper := ri.call.Call.StaticCallee()
+	st, ok := helper.Signature.Results().At(0).Type().Underlying().(*types.Struct)
+	if !ok {
+		return "the helper's result is not a struct"
+	}
+	errFld := -1
+	for i := 0; i < st.NumFields(); i++ {
+		if types.TypeString(st.Field(i).Type(), nil) == "error" {
+			errFld = i
+		}
+	}
+	if errFld < 0 {
+		return "the helper's result carries no error"
+	}
+	ha := NewAnalysis(p)
+	hfc := ha.Ctx(helper)
+	hfc.ensureConds()
+	nm := "isnil(" + hfc.AP(ex.Tuple) + "#1)"
+	if !(ha.B.HasVar(nm) && hfc.Implied(ri.ret.Block(), ha.B.Var(nm))) {
+		return "in " + shortFn(helper) + " the parsed value is handed back although time.Parse reported an error"
+	}
+	for _, ret := range returnsOf(helper) {
+		if ret == ri.ret {
+			continue
+		}
+		alts := retAlts(ret, -errFld-1)
+		if len(alts) == 0 {
+			return "a return of " + shortFn(helper) + " could not be read"
+		}
+		for _, a := range alts {
+			if hfc.NonNil(a.v) != ha.B.True && !ha.B.Implies(ha.B.And(hfc.Cond(ret.Block()), hfc.altCond(a)), hfc.NonNil(a.v)) {
+				return shortFn(helper) + " can return without an instant and without an error"
+			}
+		}
+	}
+	// the caller's guard: isnil(<result>.err) implied at b
+	B := fu.A.B
+	for _, name := range B.Support(fu.Cond(b)) {
+		ai := fu.A.Atoms[name]
+		if ai == nil || ai.Kind != "isnil" || len(ai.Vals) == 0 || !fu.Implied(b, B.Var(name)) {
+			continue
+		}
+		switch x := ai.Vals[0].(type) {
+		case *ssa.UnOp:
+			if fa, ok := x.X.(*ssa.FieldAddr); ok && fa.Field == errFld && ri.al != nil && fa.X == ssa.Value(ri.al) {
+				return ""
+			}
+		case *ssa.Field:
+			if x.Field == errFld && x.X == ssa.Value(ri.call) {
+				return ""
+			}
+		}
+	}
+	return "the parsed value is stored although " + shortFn(helper) + " reported an error"
 }
